@@ -32,7 +32,7 @@ func runC15(w *World, r *Report, tier string) {
 		rt, ok := in.(*ssa.Return)
 		return ok && isNilConst(rt.Results[1])
 	}
-	splits := w.callsIn(nj, "strings.SplitN", "strings.Split")
+	splits := w.callsInH(nj, "strings.SplitN", "strings.Split")
 	var first, second *ssa.Call
 	for _, s := range splits {
 		c := s.(*ssa.Call)
@@ -184,7 +184,7 @@ func runC15(w *World, r *Report, tier string) {
 	// the validators run on the final parts (after the '/' split)
 	if second != nil {
 		for _, k := range []string{"stanza.isUsernameValid", "stanza.isDomainValid"} {
-			for _, c := range w.callsIn(nj, k) {
+			for _, c := range w.callsInH(nj, k) {
 				ok, _ := mustPass(entryLoc(nj), func(in ssa.Instruction) bool { return in == c.(ssa.Instruction) }, func(in ssa.Instruction) bool { return in == ssa.Instruction(second) }, nil)
 				r.Check(ok, "R1", "stanza.NewJid#"+strings.TrimPrefix(k, "stanza.")+"-after-split", w.ipos(c), "a part is validated before the resource has been split off: a '/' in the resource makes a valid JID invalid, or an invalid domain is accepted", "validated after the '/' split")
 			}
